@@ -66,6 +66,8 @@ func c08Cases(c *core.Ctx) []c08Case {
 			}
 			out = append(out,
 				c08Case{Depth: 2, Defect: "none", Special: "unauthorized-sublayout", Flavour: "summary", DSSE: dsse, RunDir: runDir, wantOK: true},
+				c08Case{Depth: 2, Defect: "none", Special: "unauthorized-sublayout:by-the-functionary-of-the-earlier-step", Flavour: "summary", DSSE: dsse, RunDir: runDir, wantOK: true},
+				c08Case{Depth: 2, Defect: "none", Special: "unauthorized-sublayout:by-the-functionary-of-the-later-step", Flavour: "summary", DSSE: dsse, RunDir: runDir, wantOK: true},
 				c08Case{Depth: 2, Defect: "none", Special: "plain+sublayout", Flavour: "summary", DSSE: dsse, RunDir: runDir, wantOK: true},
 				c08Case{Depth: 2, Defect: "plain-link-disagrees-with-summary", Special: "plain+sublayout", Flavour: "summary", DSSE: dsse, RunDir: runDir},
 				c08Case{Depth: 2, Defect: "plain-link-reports-no-products", Special: "plain+sublayout", Flavour: "summary", DSSE: dsse, RunDir: runDir},
@@ -224,8 +226,17 @@ func runC08(c *core.Ctx) {
 				lmd, _ := gen.SignedMeta(gen.NewLink("sub", cm, other), k.DSSE, levels[0].ExtraKey.Priv)
 				lmd.Dump(filepath.Join(linkDir, gen.LinkName("sub", levels[0].ExtraKey.Pub.KeyID)))
 			}
-			if k.Special == "unauthorized-sublayout" {
-				// next to the honest evidence lies a sublayout signed by a functionary who is not authorized for the step
+			evilSigner := outsider
+			if strings.HasPrefix(k.Special, "unauthorized-sublayout") {
+				// next to the honest evidence lies a sublayout signed by a functionary who is not authorized for the
+				// step: a stranger, or the functionary of another step of the same layout
+				switch {
+				case strings.HasSuffix(k.Special, "earlier-step"):
+					evilSigner = levels[0].Prep
+				case strings.HasSuffix(k.Special, "later-step"):
+					evilSigner = levels[0].Final
+				}
+				outsider := evilSigner
 				evil := &gen.Nest{Level: 7, Signer: outsider, Prep: fast[1], Sub: fast[2], Final: fast[3], Inspect: []intoto.Inspection{gen.Inspection("evil", []string{helper, "touch", filepath.Join(markerDir, "EVIL")}, [][]string{{"ALLOW", "*"}}, [][]string{{"ALLOW", "*"}})}}
 				evil.Build()
 				emd, err := evil.WriteLinks(filepath.Join(linkDir, fmt.Sprintf(intoto.SublayoutLinkDirFormat, "sub", outsider.Pub.KeyID)), k.DSSE)
@@ -274,7 +285,7 @@ func runC08(c *core.Ctx) {
 						}
 					}
 				}
-				if contains(markers, "EVIL") || strings.Contains(fmt.Sprint(enteredDirs), outsider.Pub.KeyID[:8]) {
+				if contains(markers, "EVIL") || strings.Contains(fmt.Sprint(enteredDirs), evilSigner.Pub.KeyID[:8]) {
 					c.Violation("a layout offered by a functionary who is not authorized for the step was followed", id, detail)
 				}
 			} else {
@@ -328,7 +339,7 @@ func init() {
 	core.Register(&core.Property{
 		ID:    "C08",
 		Level: "exploration",
-		Rule: "nestings of 2 and 3 (thorough: also 4) layouts built bottom-up (each layout: steps prep / sub / final, step sub delegated to a sublayout signed by the functionary's key, links in <step>.<keyid8>/, one inspection with a marker per level); one defect from {sublayout signed by a wrong key, expired ten minutes ago, rule violation, failing inspection command, violated inspection rule, threshold not met, missing link, link signed by an unauthorized key, tampered link} at every level x every step; parent rules of the 'true summary' flavour (must hold) and of the 'inner artifact' flavour (must fail); a sublayout offered by an unauthorized functionary next to honest evidence (must not be followed: no sublayout_enter, no marker); threshold-2 step with one plain link + one sublayout (agreeing / disagreeing / the plain link reporting no products at all); delegated steps named sub[12], s?b*, sub\\x (sound and with a missing link); threshold-1 step with an honest plain link plus a (sound / expired / incomplete) sublayout from a second authorized functionary; threshold-2 step with the same sublayout from two functionaries, a link missing in one directory only (repeated for map order); the innermost layout re-defining the key id of the root's prep functionary with other key material (its evidence counts, a link signed with the root's material does not); a sublayout whose summary reports its product under sha512 only while the parent's evidence uses sha256 (rejected at the parent); x 2 wrappers x 2 entry points. Oracle: ground truth by construction + markers + sublayout_enter events + trace automaton. " +
+		Rule: "nestings of 2 and 3 (thorough: also 4) layouts built bottom-up (each layout: steps prep / sub / final, step sub delegated to a sublayout signed by the functionary's key, links in <step>.<keyid8>/, one inspection with a marker per level); one defect from {sublayout signed by a wrong key, expired ten minutes ago, rule violation, failing inspection command, violated inspection rule, threshold not met, missing link, link signed by an unauthorized key, tampered link} at every level x every step; parent rules of the 'true summary' flavour (must hold) and of the 'inner artifact' flavour (must fail); a sublayout offered by an unauthorized functionary (a stranger, the functionary of the earlier step, the functionary of the later step) next to honest evidence (must not be followed: no sublayout_enter, no marker); threshold-2 step with one plain link + one sublayout (agreeing / disagreeing / the plain link reporting no products at all); delegated steps named sub[12], s?b*, sub\\x (sound and with a missing link); threshold-1 step with an honest plain link plus a (sound / expired / incomplete) sublayout from a second authorized functionary; threshold-2 step with the same sublayout from two functionaries, a link missing in one directory only (repeated for map order); the innermost layout re-defining the key id of the root's prep functionary with other key material (its evidence counts, a link signed with the root's material does not); a sublayout whose summary reports its product under sha512 only while the parent's evidence uses sha256 (rejected at the parent); x 2 wrappers x 2 entry points. Oracle: ground truth by construction + markers + sublayout_enter events + trace automaton. " +
 			"non-trivial = at least one sublayout entered or deliberately not entered; distinct = (depth, defect, level, step, flavour, special, wrapper, entry point)",
 		Assumptions: []string{"sublayouts are signed with keys (the library looks the key up in the parent's keys section); certificate-authorized sublayout signers are not exercised"},
 		Workers:     func(string) int { return 16 },
